@@ -1565,10 +1565,13 @@ theorem procEvents_empty (s : Sys F) (idx : Nat) (inc : Incoming) (now : Nat)
   exact withCores_cores s.links
 
 /-- What the uplink arm does to link `j`. -/
-inductive UpStep (s : Sys F) (cid : Nat) (data : Sys.Bytes) (now : Nat) (j : Nat) (l l' : FLink F) : Prop
+inductive UpStep (s : Sys F) (cid : Nat) (data : Sys.Bytes) (now : Nat) (hc' : Bool) (j : Nat) (l l' : FLink F) : Prop
   | evolves (h : Evolves s.reg.hasConnected none l l')
+      (hne : s.links.findIdx? (·.core.connId == cid) = some j → data.isEmpty = false →
+        (Reg.processRegistrationPacket s.reg j data now).2 ≠ some .reg3)
   | reg3 (hidx : s.links.findIdx? (·.core.connId == cid) = some j)
       (hev : (Reg.processRegistrationPacket s.reg j data now).2 = some .reg3) (hl : l' = reg3Link l now)
+      (hhc : hc' = true)
   | regErr (hidx : s.links.findIdx? (·.core.connId == cid) = some j)
       (hev : (Reg.processRegistrationPacket s.reg j data now).2 = some .regErr) (hl : l' = l.markForRecovery)
 
@@ -1588,10 +1591,11 @@ theorem uplink_tail (s : Sys F) (cid : Nat) (data : Sys.Bytes) (now idx : Nat) (
       inc.acks = [] ∧ inc.sacks = [] ∧ inc.naks = [])
     (h12 : Evolves s.reg.hasConnected none l1 l2)
     (h12' : (Reg.processRegistrationPacket s.reg idx data now).2 = some .reg3 ∨
-      (Reg.processRegistrationPacket s.reg idx data now).2 = some .regErr → l2 = l1) :
+      (Reg.processRegistrationPacket s.reg idx data now).2 = some .regErr → l2 = l1)
+    (hreg1 : (Reg.processRegistrationPacket s.reg idx data now).2 = some .reg3 → reg1.hasConnected = true) :
     (∀ j x, s.links[j]? = some x →
       ∃ l', (processConnectionEvents ({ s with links := setAt s.links idx l2, reg := reg1 } : Sys F)
-          idx inc now).1.links[j]? = some l' ∧ UpStep s cid data now j x l') ∧
+          idx inc now).1.links[j]? = some l' ∧ UpStep s cid data now reg1.hasConnected j x l') ∧
     (processConnectionEvents ({ s with links := setAt s.links idx l2, reg := reg1 } : Sys F)
           idx inc now).1.links.length = s.links.length ∧
     (processConnectionEvents ({ s with links := setAt s.links idx l2, reg := reg1 } : Sys F)
@@ -1611,14 +1615,14 @@ theorem uplink_tail (s : Sys F) (cid : Nat) (data : Sys.Bytes) (now idx : Nat) (
     rw [hl] at hx; cases hx
     simp only [if_true] at hev
     cases hk with
-    | evolves h _ => exact .evolves ((h.trans h12).trans hev)
+    | evolves h hn3 => exact .evolves ((h.trans h12).trans hev) (fun _ _ => hn3)
     | reg3 hev3 hl3 =>
       have hemp := hinc (by rw [hev3]; simp)
       have hlinks := procEvents_empty ({ s with links := setAt s.links j l2, reg := reg1 } : Sys F) j inc now hemp
       have h1 : l' = l2 := by
         rw [hlinks, hj] at hl'; simpa using hl'.symm
       have h2 : l2 = l1 := h12' (Or.inl hev3)
-      exact .reg3 hidx hev3 (by rw [h1, h2, hl3])
+      exact .reg3 hidx hev3 (by rw [h1, h2, hl3]) (hreg1 hev3)
     | regErr hevE hlE =>
       have hemp := hinc (by rw [hevE]; simp)
       have hlinks := procEvents_empty ({ s with links := setAt s.links j l2, reg := reg1 } : Sys F) j inc now hemp
@@ -1627,27 +1631,32 @@ theorem uplink_tail (s : Sys F) (cid : Nat) (data : Sys.Bytes) (now idx : Nat) (
       have h2 : l2 = l1 := h12' (Or.inr hevE)
       exact .regErr hidx hevE (by rw [h1, h2, hlE])
   · simp only [hji, if_false] at hev
-    exact .evolves hev
+    exact .evolves hev (fun h => by rw [hidx] at h; exact absurd (Option.some.inj h).symm hji)
 
 /-- **Uplink event, link by link.** -/
 theorem uplink_links (s : Sys F) (cid : Nat) (data : Sys.Bytes) (now : Nat) :
     (∀ j l, s.links[j]? = some l →
-      ∃ l', (handleUplinkPacket s cid data now).1.links[j]? = some l' ∧ UpStep s cid data now j l l') ∧
+      ∃ l', (handleUplinkPacket s cid data now).1.links[j]? = some l' ∧
+        UpStep s cid data now (handleUplinkPacket s cid data now).1.reg.hasConnected j l l') ∧
     (handleUplinkPacket s cid data now).1.links.length = s.links.length ∧
     (s.reg.hasConnected = true → (handleUplinkPacket s cid data now).1.reg.hasConnected = true) ∧
     (∀ j, s.links.findIdx? (·.core.connId == cid) = some j →
       (Reg.processRegistrationPacket s.reg j data now).2 = some .reg3 → data.isEmpty = false →
       (handleUplinkPacket s cid data now).1.reg.hasConnected = true) ∧
     (handleUplinkPacket s cid data now).1.cfg = s.cfg := by
-  have hsame : (∀ j l, s.links[j]? = some l → ∃ l', s.links[j]? = some l' ∧ UpStep s cid data now j l l') :=
-    fun j l hl => ⟨l, hl, .evolves (Evolves.refl _ _ l)⟩
+  have hsame : (data.isEmpty = true ∨ s.links.findIdx? (·.core.connId == cid) = none) →
+      (∀ j l, s.links[j]? = some l → ∃ l', s.links[j]? = some l' ∧ UpStep s cid data now s.reg.hasConnected j l l') :=
+    fun hd j l hl => ⟨l, hl, .evolves (Evolves.refl _ _ l) (fun h1 h2 => by
+      rcases hd with hd | hd
+      · rw [hd] at h2; cases h2
+      · rw [hd] at h1; cases h1)⟩
   unfold handleUplinkPacket
   split
   · rename_i hemp
-    exact ⟨hsame, rfl, fun h => h, fun _ _ _ h => (by rw [hemp] at h; cases h), rfl⟩
+    exact ⟨hsame (Or.inl hemp), rfl, fun h => h, fun _ _ _ h => (by rw [hemp] at h; cases h), rfl⟩
   · split
     · rename_i hidx
-      exact ⟨hsame, rfl, fun h => h, fun j hj => (by rw [hidx] at hj; cases hj), rfl⟩
+      exact ⟨hsame (Or.inr hidx), rfl, fun h => h, fun j hj => (by rw [hidx] at hj; cases hj), rfl⟩
     · rename_i idx hidx
       split
       · rename_i hnone
@@ -1663,7 +1672,9 @@ theorem uplink_links (s : Sys F) (cid : Nat) (data : Sys.Bytes) (now : Nat) :
               (Reg.processRegistrationPacket s.reg idx data now).2 = some .regErr → l2 = l1) →
             (∀ j l, s.links[j]? = some l →
               ∃ l', (processConnectionEvents ({ s with links := setAt s.links idx l2, reg := reg1 } : Sys F)
-                idx inc now).1.links[j]? = some l' ∧ UpStep s cid data now j l l') ∧
+                idx inc now).1.links[j]? = some l' ∧
+                UpStep s cid data now (processConnectionEvents ({ s with links := setAt s.links idx l2, reg := reg1 } : Sys F)
+                idx inc now).1.reg.hasConnected j l l') ∧
             (processConnectionEvents ({ s with links := setAt s.links idx l2, reg := reg1 } : Sys F)
                 idx inc now).1.links.length = s.links.length ∧
             (s.reg.hasConnected = true →
@@ -1677,17 +1688,224 @@ theorem uplink_links (s : Sys F) (cid : Nat) (data : Sys.Bytes) (now : Nat) :
                 idx inc now).1.cfg = s.cfg := by
           intro l2 h12 h12'
           obtain ⟨t1, t2, t3, t4⟩ := uplink_tail s cid data now idx l l1 l2 reg1 inc hidx hl hk hinc h12 h12'
+            (fun h => by rw [hhc, h]; simp)
+          rw [t3]
           refine ⟨t1, t2, ?_, ?_, t4⟩
           · intro h
-            rw [t3, hhc, h]; rfl
+            rw [hhc, h]; rfl
           · intro j hj hev3 _
             rw [hidx] at hj
             cases hj
-            rw [t3, hhc, hev3]; simp
+            rw [hhc, hev3]; simp
         split
         · rename_i p hp
           exact hfin _ (ev_stamps _ _ l1 l1.core.lastReceived (some now) l1.core.proofMs)
             (fun h => by rw [hr1 h] at hp; cases hp)
         · exact hfin l1 (Evolves.refl _ _ _) (fun _ => rfl)
+
+/-! ## 10. The housekeeping arm, link by link -/
+
+theorem ev_aliveLink (hc : Bool) (cto : Option Nat) (classic : Bool) (now : Nat) (l : FLink F) :
+    Evolves hc cto l (aliveLink classic now l) := by
+  unfold aliveLink
+  dsimp only
+  have h1 : Evolves hc cto l (if l.needsKeepalive now then (l.keepalivePacket now).1 else l) := by
+    split
+    · exact ev_keepalivePacket hc cto l now
+    · exact Evolves.refl hc cto l
+  generalize (if l.needsKeepalive now then (l.keepalivePacket now).1 else l) = l1 at h1 ⊢
+  have h2 : Evolves hc cto l1 (if l1.needsRttMeasurement now then (l1.keepalivePacket now).1 else l1) := by
+    split
+    · exact ev_keepalivePacket hc cto l1 now
+    · exact Evolves.refl hc cto l1
+  generalize (if l1.needsRttMeasurement now then (l1.keepalivePacket now).1 else l1) = l2 at h2 ⊢
+  have h3 : Evolves hc cto l2 (if !classic then l2.performWindowRecovery now else l2) := by
+    split
+    · exact ev_performWindowRecovery hc cto l2 now
+    · exact Evolves.refl hc cto l2
+  generalize (if !classic then l2.performWindowRecovery now else l2) = l3 at h3 ⊢
+  have h4 : Evolves hc cto l3 { l3 with bitrate := l3.bitrate.calculate now } :=
+    Evolves.of_soft rfl rfl rfl rfl rfl rfl
+  exact (((h1.trans h2).trans h3).trans h4).trans
+    ((ev_updatePhase hc cto _ now).trans (ev_recomputeBatchRegime hc cto _))
+
+theorem isTimedOut_grace (l : FLink F) (g now : Nat) (h : l.established ≠ 0) :
+    ({ l with graceDeadline := g } : FLink F).isTimedOut now = l.isTimedOut now := by
+  unfold FLink.isTimedOut Select.isTimedOut FLink.toSLink
+  dsimp only
+  have : (l.established == 0) = false := by simpa using h
+  simp only [this, Bool.false_and]
+
+theorem shouldAttempt_grace (l : FLink F) (g now : Nat) (h : l.established ≠ 0) :
+    ({ l with graceDeadline := g } : FLink F).shouldAttemptReconnect now = l.shouldAttemptReconnect now := by
+  unfold FLink.shouldAttemptReconnect FLink.backoffDelay
+  dsimp only
+  have : (l.established == 0) = false := by simpa using h
+  simp only [this, Bool.false_eq_true, if_false]
+
+theorem shouldAttempt_in_grace (l : FLink F) (now : Nat) (h : l.established = 0) :
+    ({ l with graceDeadline := now + Conn.STARTUP_GRACE_MS } : FLink F).shouldAttemptReconnect now = false := by
+  unfold FLink.shouldAttemptReconnect
+  dsimp only
+  have : (l.established == 0) = true := by simpa using h
+  simp only [this, if_true]
+  rw [if_pos (by omega)]
+
+/-- The per-link view of the loop: the link record after the possible grace reset of stage 1. -/
+theorem graceFix_cases (g : Option Nat) (now j : Nat) (l : FLink F) :
+    graceFix g now j l = l ∨
+    (g = some j ∧ graceFix g now j l = { l with graceDeadline := now + Conn.STARTUP_GRACE_MS }) := by
+  unfold graceFix
+  split
+  · rename_i h; right; exact ⟨h, rfl⟩
+  · left; rfl
+
+/-- An attempt seen by the loop is an attempt on the record the tick started with. -/
+theorem attempt_of_graceFix (g : Option Nat) (now j : Nat) (l : FLink F)
+    (hto : (graceFix g now j l).isTimedOut now = true)
+    (hsa : (graceFix g now j l).shouldAttemptReconnect now = true) :
+    l.isTimedOut now = true ∧ l.shouldAttemptReconnect now = true ∧
+    reconnectLink (graceFix g now j l) now = reconnectLink l now := by
+  rcases graceFix_cases g now j l with e | ⟨-, e⟩
+  · rw [e] at hto hsa ⊢; exact ⟨hto, hsa, rfl⟩
+  · rw [e] at hto hsa ⊢
+    by_cases he : l.established = 0
+    · rw [shouldAttempt_in_grace l now he] at hsa; cases hsa
+    · rw [isTimedOut_grace l _ now he] at hto
+      rw [shouldAttempt_grace l _ now he] at hsa
+      exact ⟨hto, hsa, reconnectLink_grace l _ now⟩
+
+/-- What a housekeeping tick does to link `j`. -/
+inductive HkStep (hc : Bool) (now : Nat) (l l' : FLink F) : Prop
+  | evolves (h : Evolves hc none l l')
+  | attempt (hto : l.isTimedOut now = true) (hsa : l.shouldAttemptReconnect now = true)
+      (hl : ∃ t, l' = withSent (reconnectLink l now) t)
+
+theorem withSent_withSent (l : FLink F) (a b : Option Nat) : withSent (withSent l a) b = withSent l b := rfl
+
+theorem hkLink_step (hc : Bool) (classic : Bool) (now : Nat) (pending : Option Nat) (j : Nat)
+    (g : Option Nat) (l : FLink F) (t : Option Nat) :
+    HkStep hc now l (withSent (hkLink classic now pending j (graceFix g now j l)) t) := by
+  have hg : Evolves hc none l (graceFix g now j l) := by
+    rcases graceFix_cases g now j l with e | ⟨-, e⟩ <;> rw [e]
+    · exact Evolves.refl _ _ _
+    · exact Evolves.of_soft rfl rfl rfl rfl rfl rfl
+  unfold hkLink
+  split
+  · rename_i hto
+    split
+    · rename_i hsa
+      obtain ⟨a1, a2, a3⟩ := attempt_of_graceFix g now j l hto hsa
+      refine .attempt a1 a2 ?_
+      rw [a3]
+      split
+      · split
+        · exact ⟨t, rfl⟩
+        · exact ⟨t, rfl⟩
+      · exact ⟨t, rfl⟩
+    · exact .evolves (hg.trans (ev_withSent hc none _ t))
+  · exact .evolves ((hg.trans (ev_aliveLink hc none classic now _)).trans (ev_withSent hc none _ t))
+
+/-- **Housekeeping event, link by link.** -/
+theorem hk_step (s : Sys F) (now : Nat) :
+    (∀ (j : Nat) (l : FLink F), s.links[j]? = some l →
+      ∃ l', (handleHousekeeping s now).1.links[j]? = some l' ∧ HkStep s.reg.hasConnected now l l') ∧
+    (handleHousekeeping s now).1.links.length = s.links.length := by
+  obtain ⟨τ, h⟩ := hk_links s now
+  rw [h]
+  refine ⟨fun (j : Nat) (l : FLink F) hl => ?_, by simp⟩
+  rw [List.getElem?_mapIdx, hl]
+  exact ⟨_, rfl, hkLink_step _ _ _ _ _ _ _ _⟩
+
+/-- The converse direction: a link the loop sees timed out and ready is re-attempted in this tick. -/
+theorem hk_attempts (s : Sys F) (now j : Nat) (l : FLink F) (hl : s.links[j]? = some l)
+    (hto : l.isTimedOut now = true) (hsa : l.shouldAttemptReconnect now = true)
+    (hg : hkGraceIdx s now ≠ some j ∨ l.established ≠ 0) :
+    ∃ t, (handleHousekeeping s now).1.links[j]? = some (withSent (reconnectLink l now) t) := by
+  obtain ⟨τ, h⟩ := hk_links s now
+  rw [h, List.getElem?_mapIdx, hl]
+  simp only [Option.map_some]
+  have hview : (graceFix (hkGraceIdx s now) now j l).isTimedOut now = true ∧
+      (graceFix (hkGraceIdx s now) now j l).shouldAttemptReconnect now = true ∧
+      reconnectLink (graceFix (hkGraceIdx s now) now j l) now = reconnectLink l now := by
+    rcases graceFix_cases (hkGraceIdx s now) now j l with e | ⟨hgj, e⟩
+    · rw [e]; exact ⟨hto, hsa, rfl⟩
+    · rcases hg with hg | hg
+      · exact absurd hgj hg
+      · rw [e, isTimedOut_grace l _ now hg, shouldAttempt_grace l _ now hg]
+        exact ⟨hto, hsa, reconnectLink_grace l _ now⟩
+  obtain ⟨v1, v2, v3⟩ := hview
+  unfold hkLink
+  rw [if_pos v1, if_pos v2, v3]
+  split
+  · split
+    · exact ⟨_, rfl⟩
+    · exact ⟨_, rfl⟩
+  · exact ⟨_, rfl⟩
+
+/-! ## 11. All events -/
+
+/-- What one event does to link `j`. -/
+inductive LinkStep (s : Sys F) (e : Ev) (j : Nat) (l l' : FLink F) : Prop
+  /-- anything that is not a tear-down / attempt / REG3; the timeout copy may be refreshed by a
+  client event (selection pass) only -/
+  | evolves (cto : Option Nat)
+      (hcto : cto = none ∨ ∃ now pkt, e = .client now pkt ∧ cto = some s.cfg.connTimeoutMs)
+      (h : Evolves s.reg.hasConnected cto l l')
+  | sendFail (now : Nat) (pkt : Sys.Bytes) (he : e = .client now pkt)
+      (h : Torn (some s.cfg.connTimeoutMs) l l')
+      (hcons : (step s e).1.failNext.count l.core.connId < s.failNext.count l.core.connId)
+  | reg3 (now cid : Nat) (data : Sys.Bytes) (he : e = .uplink now cid data)
+      (hidx : s.links.findIdx? (·.core.connId == cid) = some j)
+      (hev : (Reg.processRegistrationPacket s.reg j data now).2 = some .reg3)
+      (hl : l' = reg3Link l now) (hhc : (step s e).1.reg.hasConnected = true)
+  | regErr (now cid : Nat) (data : Sys.Bytes) (he : e = .uplink now cid data)
+      (hidx : s.links.findIdx? (·.core.connId == cid) = some j)
+      (hev : (Reg.processRegistrationPacket s.reg j data now).2 = some .regErr)
+      (hl : l' = l.markForRecovery)
+  | attempt (now : Nat) (he : e = .hk now) (hto : l.isTimedOut now = true)
+      (hsa : l.shouldAttemptReconnect now = true) (hl : ∃ t, l' = withSent (reconnectLink l now) t)
+
+theorem step_link (s : Sys F) (e : Ev) :
+    (∀ (j : Nat) (l : FLink F), s.links[j]? = some l → ∃ l', (step s e).1.links[j]? = some l' ∧ LinkStep s e j l l') ∧
+    (step s e).1.links.length = s.links.length ∧
+    (s.reg.hasConnected = true → (step s e).1.reg.hasConnected = true) := by
+  have hsame : ∀ s' : Sys F, s'.links = s.links →
+      (∀ j l, s.links[j]? = some l → ∃ l', s'.links[j]? = some l' ∧ LinkStep s e j l l') :=
+    fun s' h j l hl => ⟨l, by rw [h]; exact hl, .evolves none (Or.inl rfl) (Evolves.refl _ _ l)⟩
+  cases e with
+  | client now pkt =>
+    obtain ⟨h1, h2, h3⟩ := client_pw s pkt now
+    refine ⟨fun j l hl => ?_, h1.length, fun h => by show (handleSrtPacket s pkt now).1.reg.hasConnected = true; rw [h2]; exact h⟩
+    obtain ⟨l', hl', hs⟩ := h1.get j l hl
+    refine ⟨l', hl', ?_⟩
+    rcases hs with hs | ⟨hs, hlt⟩
+    · exact .evolves _ (Or.inr ⟨now, pkt, rfl, rfl⟩) hs
+    · exact .sendFail now pkt rfl hs hlt
+  | uplink now cid data =>
+    obtain ⟨h1, h2, h3, h4, h5⟩ := uplink_links s cid data now
+    refine ⟨fun j l hl => ?_, h2, h3⟩
+    obtain ⟨l', hl', hs⟩ := h1 j l hl
+    refine ⟨l', hl', ?_⟩
+    cases hs with
+    | evolves h _ => exact .evolves none (Or.inl rfl) h
+    | reg3 hidx hev hl3 hhc => exact .reg3 now cid data rfl hidx hev hl3 hhc
+    | regErr hidx hev hlE => exact .regErr now cid data rfl hidx hev hlE
+  | flush now =>
+    obtain ⟨h1, h2, h3⟩ := flush_pw s.reg.hasConnected none s now
+    refine ⟨fun j l hl => ?_, h1.length, fun h => by show (flushAllBatches s now).1.reg.hasConnected = true; rw [h2]; exact h⟩
+    obtain ⟨l', hl', hs⟩ := h1.get j l hl
+    exact ⟨l', hl', .evolves none (Or.inl rfl) hs⟩
+  | hk now =>
+    obtain ⟨h1, h2⟩ := hk_step s now
+    refine ⟨fun j l hl => ?_, h2, fun h => by show (handleHousekeeping s now).1.reg.hasConnected = true; rw [hk_hasConnected]; exact h⟩
+    obtain ⟨l', hl', hs⟩ := h1 j l hl
+    refine ⟨l', hl', ?_⟩
+    cases hs with
+    | evolves h => exact .evolves none (Or.inl rfl) h
+    | attempt hto hsa hl => exact .attempt now rfl hto hsa hl
+  | setCfg cfg => exact ⟨hsame _ rfl, rfl, fun h => h⟩
+  | crit d => exact ⟨hsame _ rfl, rfl, fun h => h⟩
+  | failNext cid => exact ⟨hsame _ rfl, rfl, fun h => h⟩
 
 end Srtla.Hk
